@@ -24,6 +24,9 @@ pub enum Dev {
     Label(Scheme),
     UAddG,
     UIdentity,
+    /// two compensating changes: u := u * a^-1 and signature := signature * a (a = -1, 2, 3), so that the pairing
+    /// e(signature, u) and with it every derived value is the honest one; only the final check on u can refuse
+    Compensated(u8),
 }
 
 #[derive(Clone, Debug, PartialEq, Eq, Hash, Serialize, Deserialize)]
@@ -172,6 +175,9 @@ impl<C: Suite> Model for M13<C> {
         }
         a.push(Dev::UAddG);
         a.push(Dev::UIdentity);
+        for c in 0..3u8 {
+            a.push(Dev::Compensated(c));
+        }
         a
     }
     fn step(&self, st: &St, a: &Dev) -> Option<St> {
@@ -303,6 +309,17 @@ impl<C: Suite> Model for M13<C> {
                 }
                 Dev::UIdentity => {
                     ct.u = PkP::<C>::identity();
+                    mutant = true;
+                }
+                Dev::Compensated(c) => {
+                    use blsful::inner_types::Field;
+                    let a = match c {
+                        0 => -Sc::<C>::ONE,
+                        1 => Sc::<C>::ONE + Sc::<C>::ONE,
+                        _ => Sc::<C>::ONE + Sc::<C>::ONE + Sc::<C>::ONE,
+                    };
+                    ct.u *= Option::<Sc<C>>::from(a.invert()).expect("non-zero");
+                    sig = mk_sig::<C>(sig_scheme(&sig), *sig.as_raw_value() * a);
                     mutant = true;
                 }
             }
